@@ -1,5 +1,6 @@
 //! Case families: which runs each property needs. One entry per property group.
 use crate::gen::*;
+use crate::cssgen::*;
 use serde_json::{json, Value};
 use std::collections::HashMap;
 
@@ -15,6 +16,10 @@ pub fn gen_case(fam: &str, r: &mut Rng, i: u64, p: &HashMap<String, String>) -> 
         "c14" => c14(r, i, p),
         "c07" => c07(r, i, p),
         "c10" => c10(r, i, p),
+        "c17" => c17(r, i, p),
+        "c18" => c18(r, i, p),
+        "c19" => c19(r, i, p),
+        "c20" => c20(r, i, p),
         "c01" => c01(r, i, p),
         "c16" => c16(r, i, p),
         "c05" => c05(r, i, p),
@@ -663,4 +668,202 @@ fn c01(r: &mut Rng, i: u64, p: &HashMap<String, String>) -> Vec<Value> {
     let mut run = json!({"hx": hex(&bytes), "w": w, "cfg": cfgv, "route": route});
     if let Some(x) = wx { run["wx"] = json!(x); }
     vec![json!({"id": id("c01", i), "dom": false, "runs": [run]})]
+}
+
+fn css_doc_html(style: &str, body: &[N]) -> String {
+    let mut s = String::from("<html><head>");
+    if !style.is_empty() { s.push_str("<style>"); s.push_str(style); s.push_str("</style>"); }
+    s.push_str("</head><body>");
+    for n in body { n.html(&mut s); }
+    s.push_str("</body></html>");
+    s
+}
+fn rule(sels: Vec<Value>, decls: Vec<Value>) -> Value { json!({"sels": sels, "decls": decls}) }
+fn col_decl(c: Value, imp: bool) -> Value { json!({"prop": "color", "val": c, "imp": imp}) }
+
+/// C20: one author rule `sel, sel.. {color: X}` over the agent rule `* {color: B}`.
+fn c20(r: &mut Rng, i: u64, p: &HashMap<String, String>) -> Vec<Value> {
+    let mut d = CssDoc::new();
+    let body = d.body(r);
+    let nsel = if r.chance(1, 5) { 2 } else { 1 };
+    let sels: Vec<Value> = (0..nsel).map(|_| selector(r, 4, &d.ids)).collect();
+    let agent = json!([rule(vec![json!([{"comb": "", "name": "", "star": true, "cls": [], "id": "", "nth": []}])], vec![col_decl(json!([0, 0, 1]), false)])]);
+    let author = json!([rule(sels, vec![col_decl(json!([0, 0, 254]), false)])]);
+    let vary = Vary { on: r.chance(1, 2), drop_semi: false, double_semi: false, junk: false, unknown_props: false };
+    let html = css_doc_html(&sheet_text(&author, r, &vary), &body);
+    let ops = vec![json!(["agentcss", sheet_text(&agent, r, &canonical())]), json!(["doccss"])];
+    let w = r.range(5, wmax(p, 80));
+    vec![json!({"id": id("c20", i), "meta": {"css": {"agent": agent, "user": [], "author": author}},
+                "runs": [run(&html, w, cfg("rich", ops), "lines")]})]
+}
+
+/// C19: several declarations of colour / background competing on the same elements, drawn from
+/// {agent, user, author, inline} x {normal, important} x specificity classes x source order.
+fn c19(r: &mut Rng, i: u64, p: &HashMap<String, String>) -> Vec<Value> {
+    let mut d = CssDoc::new();
+    let mut body = d.body(r);
+    let mut k = 0u64;
+    let mut mk_sheet = |r: &mut Rng, d: &CssDoc, k: &mut u64| -> Value {
+        let n = r.below(4);
+        let mut rules = vec![];
+        for _ in 0..n {
+            // selectors of the five specificity classes, all likely to match something
+            let sel = match r.below(6) {
+                0 => json!([{"comb": "", "name": *r.pick(NAMES), "star": false, "cls": [], "id": "", "nth": []}]),
+                1 => json!([{"comb": "", "name": "", "star": false, "cls": [*r.pick(CLASSES)], "id": "", "nth": []}]),
+                2 if !d.ids.is_empty() => json!([{"comb": "", "name": "", "star": false, "cls": [], "id": r.pick(&d.ids).clone(), "nth": []}]),
+                3 => json!([{"comb": "", "name": *r.pick(NAMES), "star": false, "cls": [*r.pick(CLASSES)], "id": "", "nth": []}]),
+                4 => json!([{"comb": "", "name": "", "star": false, "cls": [], "id": "", "nth": [r.below(3) as i64, r.below(3) as i64]}]),
+                _ => selector(r, 2, &d.ids),
+            };
+            let mut decls = vec![];
+            for _ in 0..r.range(1, 2) { *k += 1; decls.push(json!({"prop": if r.chance(1, 4) { "bg" } else { "color" }, "val": colour(r, *k), "imp": r.chance(1, 3)})); }
+            rules.push(rule(vec![sel], decls));
+        }
+        Value::Array(rules)
+    };
+    let agent = mk_sheet(r, &d, &mut k); let user = mk_sheet(r, &d, &mut k); let author = mk_sheet(r, &d, &mut k);
+    // inline styles on some elements
+    fn add_inline(r: &mut Rng, n: &mut N, k: &mut u64) {
+        if let N::E(_, attrs, kids) = n {
+            if r.chance(1, 4) {
+                *k += 1;
+                let dcl = json!({"prop": if r.chance(1, 4) { "bg" } else { "color" }, "val": colour(r, *k), "imp": r.chance(1, 3)});
+                attrs.push(("style".into(), style_attr_text(&[dcl])));
+            } else if r.chance(1, 12) { *k += 1; attrs.push(("color".into(), colour_hex(&colour(r, *k)))); }
+            for c in kids.iter_mut() { add_inline(r, c, k); }
+        }
+    }
+    for n in body.iter_mut() { add_inline(r, n, &mut k); }
+    let html = css_doc_html(&sheet_text(&author, r, &canonical()), &body);
+    let mut ops = vec![];
+    if agent.as_array().unwrap().len() > 0 { ops.push(json!(["agentcss", sheet_text(&agent, r, &canonical())])); }
+    if user.as_array().unwrap().len() > 0 { ops.push(json!(["css", sheet_text(&user, r, &canonical())])); }
+    if !r.chance(1, 10) { ops.push(json!(["doccss"])); }
+    let w = r.range(5, wmax(p, 80));
+    vec![json!({"id": id("c19", i), "meta": {"css": {"agent": agent, "user": user, "author": author}},
+                "runs": [run(&html, w, cfg("rich", ops), "lines")]})]
+}
+
+/// C18: hide a random set of subtrees by class / id / element name / descendant of a marked element /
+/// inline style / height:0 + overflow:hidden; the generator also writes the document without them.
+fn c18(r: &mut Rng, i: u64, p: &HashMap<String, String>) -> Vec<Value> {
+    // a richer document: block grammar with lists, quotes, headings, links, tables
+    let mut f = if r.chance(1, 3) { Feat::all() } else { Feat::notables() };
+    f.ids = false; f.pre = r.chance(1, 3);
+    let mut g = G::new(r, f);
+    let mut body = g.flow(0);
+    let mut rules: Vec<Value> = vec![];
+    let mut nh = 0u32;
+    // mark: returns true if this node is to be deleted
+    fn walk(r: &mut Rng, n: &mut N, rules: &mut Vec<Value>, nh: &mut u32, hidden_names: &[&str]) -> bool {
+        let N::E(name, attrs, kids) = n else { return false };
+        if hidden_names.contains(&name.as_str()) { return true; }
+        if r.chance(1, 9) && !["html", "body", "tbody", "thead"].contains(&name.as_str()) {
+            *nh += 1;
+            let disp = json!({"prop": "display", "val": "none", "imp": r.chance(1, 4)});
+            match r.below(5) {
+                0 => { attrs.push(("class".into(), format!("h{}", nh))); rules.push(json!({"sels": [[{"comb": "", "name": "", "star": false, "cls": [format!("h{}", nh)], "id": "", "nth": []}]], "decls": [disp]})); }
+                1 => { attrs.push(("id".into(), format!("hid{}", nh))); rules.push(json!({"sels": [[{"comb": "", "name": name.clone(), "star": false, "cls": [], "id": format!("hid{}", nh), "nth": []}]], "decls": [disp]})); }
+                2 => { attrs.push(("style".into(), "display:none".into())); }
+                3 => { attrs.push(("style".into(), "height:0;overflow:hidden".into())); }
+                _ => { attrs.push(("class".into(), format!("k{}", nh)));
+                       rules.push(json!({"sels": [[{"comb": "", "name": "", "star": false, "cls": [format!("k{}", nh)], "id": "", "nth": []}]],
+                                         "decls": [{"prop": "height", "val": 0, "imp": false}, {"prop": "overflow", "val": "hidden", "imp": false}]})); }
+            }
+            return true;
+        }
+        let mut k = 0;
+        while k < kids.len() { if walk(r, &mut kids[k], rules, nh, hidden_names) { kids[k] = mark_deleted(kids[k].clone()); } k += 1; }
+        false
+    }
+    fn mark_deleted(n: N) -> N { if let N::E(name, mut attrs, kids) = n { attrs.push(("data-del".into(), "1".into())); N::E(name, attrs, kids) } else { n } }
+    fn without_deleted(ns: &[N]) -> Vec<N> {
+        ns.iter().filter(|n| !matches!(n, N::E(_, a, _) if a.iter().any(|(k, _)| k == "data-del"))).map(|n| match n {
+            N::E(name, a, kids) => N::E(name.clone(), a.clone(), without_deleted(kids)), o => o.clone() }).collect()
+    }
+    fn strip_marks(ns: &[N]) -> Vec<N> {
+        ns.iter().map(|n| match n { N::E(name, a, kids) => N::E(name.clone(), a.iter().filter(|(k, _)| k != "data-del").cloned().collect(), strip_marks(kids)), o => o.clone() }).collect()
+    }
+    // sometimes hide every element of one name through an element rule
+    let hidden_names: Vec<&str> = if r.chance(1, 5) { vec![*r.pick(&["em", "li", "h2", "blockquote", "code", "td", "a", "p"])] } else { vec![] };
+    for hn in &hidden_names { rules.push(json!({"sels": [[{"comb": "", "name": hn, "star": false, "cls": [], "id": "", "nth": []}]], "decls": [{"prop": "display", "val": "none", "imp": false}]})); }
+    let mut k = 0;
+    while k < body.len() { if walk(r, &mut body[k], &mut rules, &mut nh, &hidden_names) { body[k] = mark_deleted(body[k].clone()); } k += 1; }
+    let author = Value::Array(rules);
+    let vary = Vary { on: r.chance(1, 2), drop_semi: false, double_semi: false, junk: false, unknown_props: false };
+    let style = sheet_text(&author, r, &vary);
+    let full = strip_marks(&body);
+    let deleted = without_deleted(&body);
+    let (h1, h2) = (css_doc_html(&style, &full), css_doc_html(&style, &deleted));
+    // StripStyle(d): no <style>, no style attributes
+    fn strip_style(ns: &[N]) -> Vec<N> { ns.iter().map(|n| match n { N::E(name, a, kids) => N::E(name.clone(), a.iter().filter(|(k, _)| k != "style").cloned().collect(), strip_style(kids)), o => o.clone() }).collect() }
+    let h3 = css_doc_html("", &strip_style(&full));
+    let deco = *r.pick(&["plain", "rich", "plain_nd"]);
+    let route = if deco == "rich" { "lines" } else { "string" };
+    let w = r.range(1, wmax(p, 100));
+    let on = cfg(deco, vec![json!(["doccss"])]);
+    let off = cfg(deco, vec![]);
+    vec![json!({"id": id("c18", i), "meta": {"css": {"agent": [], "user": [], "author": author}},
+                "runs": [run(&h1, w, on.clone(), route), run(&h2, w, on, route), run(&h1, w, off.clone(), route), run(&h3, w, off, route)]})]
+}
+
+/// C17: (total) any string to add_css; (inert) malformed CSS inside a document; (variant) a valid sheet
+/// and a syntactic variant of it.
+fn c17(r: &mut Rng, i: u64, p: &HashMap<String, String>) -> Vec<Value> {
+    let mut d = CssDoc::new();
+    let body = d.body(r);
+    let w = r.range(5, wmax(p, 80));
+    // a valid sheet of colour rules
+    let n = r.range(1, 4);
+    let mut k = 0u64;
+    let rules: Vec<Value> = (0..n).map(|_| { k += 1; let mut decls = vec![json!({"prop": if r.chance(1, 4) { "bg" } else { "color" }, "val": colour(r, k), "imp": r.chance(1, 5)})];
+        if r.chance(1, 3) { k += 1; decls.push(json!({"prop": "bg", "val": colour(r, k), "imp": false})); }
+        let nsel = if r.chance(1, 4) { 2 } else { 1 };
+        rule((0..nsel).map(|_| selector(r, 3, &d.ids)).collect(), decls) }).collect();
+    let sheet = Value::Array(rules);
+    match r.below(3) {
+        0 => {
+            // total: valid sheets, truncations, token soup, random unicode
+            let vv = Vary { on: true, drop_semi: r.chance(1, 3), double_semi: r.chance(1, 5), junk: true, unknown_props: true };
+            let base = sheet_text(&sheet, r, &vv);
+            let s: String = match r.below(4) {
+                0 => { let cut = r.below(base.chars().count() as u64 + 1) as usize; base.chars().take(cut).collect() }
+                1 => { let toks = ["{", "}", ";", ":", ",", "(", ")", "[", "]", "@media", "@", "#", ".", "*", ">", "+", "~", "!important", "!", "\"", "'", "\\", "/*", "*/", "<!--", "-->", "url(", "rgb(", "1e9", "-", "--x", "\\41 ", "p", "color", "red", "#fff", "99999999999999999999", "nth-child(", ":", "::before", "content", "\n", " ", "\u{0}", "é", "一", "\u{fffd}"];
+                       (0..r.range(0, 60)).map(|_| *r.pick(&toks)).collect::<Vec<_>>().join(if r.chance(1, 2) { " " } else { "" }) }
+                2 => { String::from_utf8_lossy(&mutate(r, base.as_bytes())).into_owned() }
+                _ => base,
+            };
+            let html = css_doc_html("", &body);
+            let which = if r.chance(1, 3) { "agentcss" } else { "css" };
+            vec![json!({"id": id("c17", i), "dom": false, "meta": {"kind": "total"}, "runs": [run(&html, w, cfg("rich", vec![json!([which, s])]), "lines")]})]
+        }
+        1 => {
+            // inert: colour-only / junk CSS in the document must not change the text
+            let vv = Vary { on: true, drop_semi: r.chance(1, 3), double_semi: r.chance(1, 5), junk: true, unknown_props: true };
+            let base = sheet_text(&sheet, r, &vv);
+            let mut s = match r.below(3) { 0 => { let cut = r.below(base.chars().count() as u64 + 1) as usize; base.chars().take(cut).collect() }
+                                           1 => String::from_utf8_lossy(&mutate(r, base.as_bytes())).into_owned(), _ => base };
+            // keep the text-affecting properties and tag-like bytes out of the style element
+            for bad in ["display", "content", "white-space", "height", "overflow", "<", "DISPLAY", "Display"] { s = s.replace(bad, "x"); }
+            let h1 = css_doc_html(&s, &body); let h2 = css_doc_html("", &body);
+            let deco = *r.pick(&["plain", "rich"]);
+            let c = cfg(deco, vec![json!(["doccss"])]);
+            vec![json!({"id": id("c17", i), "dom": false, "meta": {"kind": "inert"}, "runs": [run(&h1, w, c.clone(), "string"), run(&h2, w, c, "string")]})]
+        }
+        _ => {
+            // variant: same sheet, different insignificant syntax
+            let canon = sheet_text(&sheet, r, &canonical());
+            let v = Vary { on: true, drop_semi: r.chance(1, 3), double_semi: r.chance(1, 6), junk: r.chance(1, 2), unknown_props: r.chance(1, 2) };
+            let var = sheet_text(&sheet, r, &v);
+            let (ops1, ops2, h1, h2) = if r.chance(1, 2) {
+                (vec![json!(["doccss"])], vec![json!(["doccss"])], css_doc_html(&canon, &body), css_doc_html(&var, &body))
+            } else {
+                let h = css_doc_html("", &body);
+                (vec![json!(["css", canon])], vec![json!(["css", var])], h.clone(), h)
+            };
+            vec![json!({"id": id("c17", i), "dom": false, "meta": {"kind": "variant", "drop": v.drop_semi, "dbl": v.double_semi, "junk": v.junk},
+                        "runs": [run(&h1, w, cfg("rich", ops1), "lines"), run(&h2, w, cfg("rich", ops2), "lines")]})]
+        }
+    }
 }
